@@ -118,6 +118,8 @@ class OFlow:
     def _is_opaque(self, e: ast.Call) -> bool:
         f = e.func
         if isinstance(f, ast.Name):
+            if any(isinstance(d, ast.Call) for d in self.defs.get(f.id, [])):
+                return True       # a local bound to the result of a call (a callable factory the normal form did not expand): what it does to its operand is not read
             return f.id not in PY_PURE and f.id not in self.defs and f.id not in self.params
         return isinstance(f, ast.Attribute) and isinstance(f.value, ast.Name) and f.value.id in ('self', 'cls')
 
